@@ -38,6 +38,11 @@ def main():
     except common.HarnessTimeout as e:
         print(f'harness timeout: {e}')
         sys.exit(2)
+    except Exception:
+        import traceback
+        traceback.print_exc()
+        print('harness error (unexpected exception in the harness itself): no verdict')
+        sys.exit(2)
     sys.exit(rc)
 
 
